@@ -61,7 +61,7 @@ var all = map[string]*runner.Spec{
 			"sequential reference values are computed in a separate simulation with the run-to-block schedule",
 			"porcupine verdict Unknown (timeout) is counted as inconclusive, never reported",
 		},
-		QuickRuns: 4000, ThorRuns: 120000, QuickCap: 420, ThorCap: 2400,
+		QuickRuns: 3000, ThorRuns: 120000, QuickCap: 420, ThorCap: 2400,
 		TestPkgs: []string{"github.com/google/licenseclassifier/stringclassifier/...", "github.com/google/licenseclassifier/serializer"},
 		Instrument: func(sc *runner.Scratch) error {
 			_, err := sc.Instrument(runner.InstrumentPlan{
